@@ -203,6 +203,7 @@ class Gen:
         src = lambda kinds: (r.choice(self.live(lambda x: x.kind in kinds)) if self.live(lambda x: x.kind in kinds) else 0)
         if h.kind == 'str':
             op = r.choice(['resize', 'concat', 'assign', 'rem', 'resize', 'concat'])
+            if op == 'assign' and r.random() < 0.3: self.emit(f'assign {i} {i}'); return      # assign(s, s): returns before the guard (fix 744a45f)
             self.emit(f'resize {i} {r.randrange(0, 9)}' if op == 'resize' else f'{op} {i} {src(("str",))}')
         elif h.kind == 'tup':
             op = r.choice(['push', 'pop', 'push_at', 'pop_at', 'concat', 'assign', 'resize', 'rem'])
@@ -213,7 +214,7 @@ class Gen:
             elif op == 'pop_at': self.emit(f'pop_at {i} {r.randrange(-3, 5)}')
             elif op in ('concat', 'assign'):
                 o = src(("tup",)); oi = getattr(self.h.get(o), 'items', [])
-                if len(items) + len(oi) <= 40: self.emit(f'{op} {i} {o}'); h.items = (items if op == 'concat' else []) + [-1] * max(1, len(oi))
+                if len(items) + len(oi) <= 40: self.emit(f'{op} {i} {o}'); h.items = (items if op == 'concat' or not h.heap else []) + [-1] * max(1, len(oi))     # (a stack / static Tuple refuses: its items stay)
             elif op == 'resize': self.emit(f'resize {i} {r.randrange(0, 5)}')
             else: self.emit(f'rem {i} {src(("int",))}')
         elif h.kind in ('arr', 'lst'):
@@ -257,6 +258,16 @@ class Gen:
             else: self.emit(f'view {k} {i}')
         elif c < 0.85: self.emit(f'obs {i}')
         else: self.emit(f'view {r.choice(["range", "hrange"])} {r.randrange(-3, 4)} {r.randrange(-3, 8)} {r.choice([1, 1, 2, -1, -2, 0, 3])}')
+    def rt_users(self, k):
+        """live handles whose header (objects) or element slots (containers) point to the Type object of run-time type k"""
+        t = f'RT{k}'
+        return [i for i, x in self.h.items() if x.live and ((x.kind == 'rto' and x.rtk == k) or x.ety == t or x.kty == t or x.vty == t)]
+    def rt_ever_users(self, k):
+        """the same, whether the generator believes them alive or not (its ledger is an approximation)"""
+        t = f'RT{k}'
+        return [i for i, x in self.h.items() if (x.kind == 'rto' and x.rtk == k) or x.ety == t or x.kty == t or x.vty == t]
+    def releasable(self, i):
+        h = self.h[i]; return h.live and h.heap and h.reg and not h.root and not self.referenced(i)
     def sweep(self, v=None, how=None):
         cand = self.live()
         if not cand: return
@@ -266,18 +277,47 @@ class Gen:
             for i in list(v):
                 o = self.h[i].owns
                 if self.h[i].kind == 'box' and o in self.h and self.h[o].live and o not in v and self.rng.random() < 0.7: v.append(o)
-        order = self.rng.sample(v, self.rng.randrange(0, len(v) + 1))
+        v = list(v)
+        # a run-time Type in use among the victims: either all its users are victims too and come before it on the pending
+        # list (in contract: each is finalised while its Type is alive), or the Type is not made a victim — a Type released
+        # before or under its instances is KF-C19-type-outlived (witness corpus/kf_c19_type_outlived.ops)
+        first = []
+        for i in list(v):
+            h = self.h[i]
+            if h.kind == 'rtt' and h.live:
+                users = self.rt_ever_users(h.rtk)
+                if not users: continue
+                if self.releasable(i) and len(users) <= 8 and len(first) < 40 and all(self.releasable(u) for u in users) and self.rng.random() < 0.6:
+                    for u in users:
+                        if u not in v: v.append(u)
+                        if u not in first: first.append(u)
+                    first.append(i)
+                else: v.remove(i)
+        if not v: return
+        # users of a Type that is in `first` must not come after it: the Types go last among `first`
+        ts = [i for i in first if self.h[i].kind == 'rtt']
+        first = [i for i in first if i not in ts] + ts
+        rest = [i for i in v if i not in first]
+        order = first + self.rng.sample(rest, self.rng.randrange(0, len(rest) + 1))
+        order = order[:60]
         how = how or self.rng.choice(['sweep', 'sweep', 'thr'])
         self.emit(f'{how} ' + ' '.join(map(str, v)) + (' ; ' + ' '.join(map(str, order)) if order or self.rng.random() < 0.3 else ''))
-        seeds = []
-        for i in v:
-            h = self.h[i]
-            if h.heap and h.reg and not h.root and not self.referenced(i) and not (h.kind == 'rtt' and any(x.live and x is not h and (x.rtk == h.rtk or x.ety == f'RT{h.rtk}' or x.vty == f'RT{h.rtk}') for x in self.h.values())):
-                seeds.append(i)
+        seeds = [i for i in v if self.releasable(i)]
         self.release_closure(seeds)
     def exit_op(self):
         cand = self.live(lambda h: h.reg and not h.root)
-        order = self.rng.sample(cand, self.rng.randrange(0, min(len(cand), 6) + 1)) if cand else []
+        # every user of a registered run-time Type comes before that Type in the layout (see `sweep`)
+        ts = [i for i in cand if self.h[i].kind == 'rtt' and self.rt_ever_users(self.h[i].rtk)]
+        first = []
+        for t in ts: first += [u for u in self.rt_ever_users(self.h[t].rtk) if u not in first]
+        first += ts
+        if len(first) > 60: return
+        # a user that the teardown does not release itself (root, raw) but that a Box owns is deleted by that Box's destructor,
+        # possibly after its Type: KF-C19-type-outlived territory
+        if any(self.owned(u) and not (self.h[u].reg and not self.h[u].root) for u in first if self.h[u].kind != 'rtt'): return
+        rest = [c for c in cand if c not in first]
+        order = first + (self.rng.sample(rest, self.rng.randrange(0, min(len(rest), 6) + 1)) if rest else [])
+        order = order[:62]
         self.emit('exit' + (' ; ' + ' '.join(map(str, order)) if order else ''))
 
 def systematic(kind):
@@ -320,7 +360,7 @@ def systematic(kind):
         for k in range(10):
             i = make(r)
             if i in g.h: g.inplace_op(i); g.inplace_op(i); g.emit(f'obs {i}')
-    g.emit('sweep ' + ' '.join(str(i) for i in list(g.h)[:40]))
+    g.sweep([i for i in list(g.h)[:40] if g.h[i].live], 'sweep')
     g.emit('end')
     return g.lines
 
@@ -442,7 +482,7 @@ class C19(Spec):
                   'released twice over any history; a refused release (dealloc*, del, del_root, and del_raw / destruct outside the territory of KF-C19-delraw-embedded) returns the very '
                   'same state; the skipped calls of a history are an explicit predicate (St.freeSkip, Skipped) and are no-ops — histories in which destructors delete other objects (Boxes: chains, rings, a Box that owns itself, stack Boxes), also objects that '
                   'wait on the pending list of the sweep under way, in every pending order, at forced and threshold collections and at the teardown: every victim of a '
-                  'collection is released exactly once and no released block is touched. The order "un-list, then finalise" of GC_Sweep\'s release loop and of both branches of '
+                  'collection is released exactly once and no released block is touched — for every collection and teardown that releases no run-time Type object before or under a live object of that type (explicit hypothesis typeLost / typeFirst = false; the full statements are refuted: C19_type_outlived_refuted). The order "un-list, then finalise" of GC_Sweep\'s release loop and of both branches of '
                   'GC_Rem_Ptr is read from the source; with the other order the model exhibits the double finalisation (C19_late_clear_refuted). '
                   'The model is tied to the implementation by executing thousands of generated histories on both, comparing type, class, '
                   'registration, value and the exact sequence of released blocks after every operation.')
@@ -450,7 +490,9 @@ class C19(Spec):
                   'AddressSanitizer for invalid or double frees; libc malloc/realloc/free are modelled. Known on this tree (not repaired, reported to the coordinator): '
                   'del_raw of an embedded or stack object whose destructor is not guarded for its class (String, Tuple, Array, … elements; a stack Box) runs that destructor before dealloc '
                   'refuses the object (use after free while formatting the error; the Box is cleared and its pointee deleted); Tree_Alloc does not '
-                  'round size(ktype), so the value header is misaligned for key types whose size is not a multiple of 8; del of an object that is not registered is silent.')
+                  'round size(ktype), so the value header is misaligned for key types whose size is not a multiple of 8; del of an object that is not registered is silent; '
+                  'a run-time Type object is not kept alive by its instances (the collector does not trace the type pointer of a header; a sweep or the teardown may release it before or under them: KF-C19-type-outlived); '
+                  'copy of a Range / Slice / Zip object raises ValueError (KF-C19-copy-view).')
     rule = ('op files: (a) for each kind of object (Int, String, Tuple, Ref, Array, List, Table, Tree — with Int, String, Tuple, Array and run-time struct elements —, Box on the heap and on the stack, '
             'run-time Type, object of a run-time type, static built-in Type) every '
             'route that can produce it x each of the 7 freeing operations and 10 random in-place operations, each on a fresh object, also on its elements; (b) random '
@@ -473,10 +515,15 @@ class C19(Spec):
                    'a Box never owns a Type object or a Tuple item (Box_Show follows the pointer, the mark phase dereferences Tuple items); destructors delete but do not allocate; '
                    'Boxes live on the heap or on the stack ($(Box, x) with x not itself a Box or Ref: the message of a refused dealloc shows the Box and what it points to; '
                    'dealloc of a stack Box whose pointee the program has already released is skipped as `dangling`); the items of a Tuple stored inside a container are Ints / Strings '
-                   'that are not on the heap; the teardown is not observed while a registered run-time Type object exists',
+                   'that are not on the heap',
+                   'the types of all live objects are static, root-registered, raw, or are not released by the collection at hand before (or under) their instances: a collection or teardown '
+                   'that releases a run-time Type object before or under a live object of that type is KF-C19-type-outlived (St.typeLost / St.typeFirst; explicit hypothesis of '
+                   'C19_sweep_releases_each_victim_once_partial and C19_teardown_releases_once_partial, refuted without it: C19_type_outlived_refuted); generated collections make a Type in use a '
+                   'victim only together with all its users, the users first on the pending list; the harness tries such collections in a forked child first',
                    'not generated (known findings, witnesses in corpus/kf_c19_*.ops): del_raw / destruct of a String, Tuple or Array embedded in a container and del_raw of a stack Box '
-                   'that points to something (KF-C19-delraw-embedded); a Tree whose key type has a size that is not a multiple of 8; `del` of an unregistered object is only required to leave it intact',
+                   'that points to something (KF-C19-delraw-embedded; an EMPTY embedded Array is outside the finding and is run: corpus/hdr_embedded_tuple_array.ops); copy of a Range, Slice or Zip object (KF-C19-copy-view, `kf copy-view-<T>`; Filter and Map are run: corpus/hdr_copy_views.ops); a Tree whose key type has a size that is not a multiple of 8; `del` of an unregistered object is only required to leave it intact',
                    'tuples with a repeated item are not iterated (F13, C11); slices are taken as slice(x, start, _) (F11, C11)',
+                   'an operation with its target among its own arguments is skipped as `self`, except assign(s, s) of a String (fix 744a45f: returns before the guard), which is run on every class',
                    'element and value types: Int, String, Tuple, Array of Int, run-time types of 8..256 bytes; key types: Int, String; strings are alphanumeric')
     def cases(self, rng, tier, boost=1):
         cs = []
